@@ -322,3 +322,26 @@ def r4(ctx: Ctx) -> None:
         ok = any(x[0] == "if" and x[1][0] == "c" and x[1][1][0] == "a" and x[1][1][2] == "valid" and contains(x[2], "append") and x[3] == () for x in body)
     if not ok:
         ctx.report(st.where, "keeps-invalid", "Strop.__init__ does not keep exactly the instances whose valid() is true", lineno=st.node.lineno)
+
+
+@rule("C15", "R5.polygon-ring", "LOOP-COVER",
+      "the even-odd inside test walks all n edges of the vertex ring, including the closing edge from the last vertex back "
+      "to the first (vertices[(i + 1) % n] for i in range(n)); the crossing test is half-open on y", floor=1)
+def r5(ctx: Ctx) -> None:
+    f = ctx.func(FSUTILS, "is_point_inside_polygon")
+    c = canon_function(f, ctx.model)
+    verts = ("p", 1)
+    n = ("c", ("g", "len"), (verts,), ())
+    loops = [lp for lp in c if lp[0] == "for"]
+    ctx.site(f.where, "edge loop: i in range(len(vertices)), second endpoint vertices[(i + 1) % n]", loops=len(loops))
+    ok = False
+    if len(loops) == 1 and loops[0][2] == ("c", ("g", "range"), (n,), ()):
+        i = loops[0][1]
+        nxt = ("s", verts, ("bin", "Mod", (to_poly(i) + Poly.const(1)).to_s(), n))
+        ok = contains(loops[0][3], nxt) and contains(loops[0][3], ("s", verts, i))
+    if not ok:
+        # an explicit closing of the ring is acceptable as well: zip(vertices, vertices[1:] + vertices[:1])
+        ok = contains(c, ("g", "zip")) and contains(c, ("slice", K_NONE if False else ("k", "none"), k_num(1), ("k", "none")))
+    if not ok:
+        ctx.report(f.where, "ring-not-closed", "the inside test does not visit the closing edge (last vertex -> first vertex): for an open vertex list cells next to that edge "
+                   "are classified wrongly and the decomposition has the wrong area or is refused", lineno=f.node.lineno)
